@@ -130,8 +130,8 @@ type CR3Parts struct {
 	XMP                    []byte // xpacket payload (nil = absent)
 	Preview                []byte // JPEG bytes of the PRVW box (nil = absent)
 	PrvwW, PrvwH           uint16
-	CTBOOver               int // declared CTBO item count exceeds the items present by this much (malformed variant)
-	TopNoise               int // sprinkle unknown / opaque boxes between the top-level boxes too
+	CTBOOver               int  // declared CTBO item count exceeds the items present by this much (malformed variant)
+	TopNoise               int  // sprinkle unknown / opaque boxes between the top-level boxes too
 	NoMdat                 bool // the file ends with the last metadata box (no trailing mdat)
 	// Align > 0: a free box is inserted as the first child of moov so that the header of a
 	// randomly chosen nested box (64-bit headers preferred) starts Align-1 bytes before a 4 KiB
